@@ -34,6 +34,7 @@ EXPLANATION = (
     ' (27) POSBOUND: a get_cursor_coords() that rejects its computed column beyond the right edge also rejects a negative one (shared with C09.17; fix 2daba5c: clip + right alignment gave the cursor (-4, 0)).'
     ' (28) SIB: Padding.pack() and padding_values() state the same unsized total for a given width, compared as linear forms (fix a506415: min_width widened pack() but not render()).'
     ' Round 8: (29) GUARD: a pad_trim call by target - actual is not placed under a one-sided comparison of the two (unless the other side cannot occur or is handled by a test of its own); (30) RUNPOS: every pad segment (n, None) the layout module builds has n shown non-zero.'
+    ' Round-8 triage: (31) GUARD: a method whose size may be () indexes it only under a test of the size (fix c5b9499).'
 )
 NOT_DECIDED = (
     "That composed canvases actually have the requested size for all trees/sizes/texts (value semantics of shards, layout and padding); truthfulness of sizing(); wide-character column "
